@@ -365,10 +365,11 @@ class Effects:
             if H.render(n["l"]) == "self.sp":
                 v = sym_of(n["r"])
                 pre = self.eff(n["r"], where)
-                if v is not None and v.t.get("self.sp") != 1 and len(v.t) == 1 and v.c == 0:
-                    snap = getattr(self, "_snaps", {}).get(next(iter(v.t)))
-                    if snap is not None:
-                        v = snap
+                if v is not None and v.t.get("self.sp") != 1:
+                    snaps = getattr(self, "_snaps", {})
+                    hit = [t for t in v.t if t in snaps and v.t[t] == 1]
+                    if len(hit) == 1:
+                        v = v.subst({hit[0]: snaps[hit[0]]})
                 if v is not None and v.t.get("self.sp") == 1:
                     return self.seq(pre, {(Eff(v - Lin(0, {"self.sp": 1})), "fall")})
                 txt = H.render(n["r"])
